@@ -273,11 +273,17 @@ func CheckC20(run *Run) {
 	}
 	var dirs []string
 	refused := map[string]string{}
+	unanswered := map[string]string{}
 	for i, r := range reqs {
 		g := s.Gens[i]
 		for _, p := range []string{"go-http", "go-client"} {
 			if g.Results[p].Exit != "ok" {
 				refused[r.ID] = fmt.Sprintf("%s: %s %s", p, g.Results[p].Exit, firstLine(g.Results[p].Error))
+				if g.Results[p].Exit != "error-response" {
+					// no answer at all (timeout, crash, killed): the mock generator must terminate on every
+					// response type, recursive ones included
+					unanswered[r.ID] = refused[r.ID]
+				}
 			}
 		}
 		if refused[r.ID] != "" {
@@ -391,6 +397,11 @@ func CheckC20(run *Run) {
 	var ccs []CoqCase
 	var crs []*CaseResult
 	for _, r := range reqs {
+		if unanswered[r.ID] != "" {
+			run.Results = append(run.Results, &CaseResult{ID: r.ID, Family: "mock", Input: map[string]any{"schema": r.ID}, Obs: map[string]any{"plugin": unanswered[r.ID]},
+				Unmodelled: "plugin did not answer", OracleHolds: false, OracleNote: "generate_mock=true: " + unanswered[r.ID], NonTrivial: true, Features: []string{"mock"}})
+			continue
+		}
 		if refused[r.ID] != "" {
 			run.Notes = append(run.Notes, "refused: "+r.ID+": "+refused[r.ID])
 			continue
